@@ -58,15 +58,24 @@ for _n, _nd, _tiers in ((3, 2, ('quick', 'thorough')), (3, 3, ('quick', 'thoroug
 
 
 # ---------------------------------------------------------------- C20.f Polygons::_getHullIndices: convex hull by gift wrapping (harness/C20/hull.cpp)
-K('C20.f.x', property='C20', engine='symex', harness='C20/hull.cpp', entry='k_hull',
-  tus=['src/Polygon/Polygons.cpp', 'src/Basic/AStringable.cpp', 'src/Basic/Utilities.cpp'],
-  defines={'all': {'VF_N': 4, 'VF_G': 1048576, 'VF_XS': '0,1,2,3'}}, symex={'no_merge': True},
-  passes='cgscc(inline),function(sroa,early-cse,instcombine,dce)',
-  bounds={'quick': 'experimental'}, timeout_ms={'quick': 120000}, validate={'quick': 40}, validate_doubles='int',
-  what='x', out='x', assumptions=[], stubs=[])
-K('C20.f.y', property='C20', engine='symex', harness='C20/hull.cpp', entry='k_hull',
-  tus=['src/Polygon/Polygons.cpp', 'src/Basic/AStringable.cpp', 'src/Basic/Utilities.cpp'],
-  defines={'all': {'VF_N': 4, 'VF_G': 16}}, symex={'no_merge': True},
-  passes='cgscc(inline),function(sroa,early-cse,instcombine,dce)',
-  bounds={'quick': 'experimental'}, timeout_ms={'quick': 120000}, validate={'quick': 40}, validate_doubles='int',
-  what='x', out='x', assumptions=[], stubs=[])
+# explored path by path: no state merging (symex no_merge) and a pass pipeline without simplifycfg (no if-conversion into selects)
+_HULL_PASSES = 'cgscc(inline),function(sroa,early-cse,instcombine,dce)'
+for _tag, _n, _mode, _xb, _swap, _tiers in (
+        ('4p', 4, 1, 0, 0, ('quick', 'thorough')), ('4pt', 4, 1, 0, 1, ('quick', 'thorough')),
+        ('4t', 4, 2, 4, 0, ('thorough',)), ('4tt', 4, 2, 4, 1, ('thorough',)),
+        ('5p', 5, 1, 0, 0, ('thorough',)), ('5pt', 5, 1, 0, 1, ('thorough',))):
+    _fam = ('any permutation of 0..%d' % (_n - 1)) if _mode == 1 else ('any tuple over 0..%d (ties included)' % (_xb - 1))
+    K('C20.f.' + _tag, property='C20', engine='symex', harness='C20/hull.cpp', entry='k_hull',
+      tus=['src/Polygon/Polygons.cpp', 'src/Basic/AStringable.cpp', 'src/Basic/Utilities.cpp'],
+      defines={'all': {'VF_N': _n, 'VF_G': 1048576, 'VF_XMODE': _mode, 'VF_XB': max(_xb, 1), 'VF_SWAP': _swap}}, tiers=_tiers,
+      symex={'no_merge': True, 'max_steps': 6000000 if 'quick' in _tiers else 200000000}, passes=_HULL_PASSES,
+      bounds={'quick': 'exactly %d points in general position (no three collinear); %s: %s; the other coordinate of every point: arbitrary integer |v| <= 2^20'
+                       % (_n, 'ordinates' if _swap else 'abscissae', _fam)},
+      timeout_ms={'quick': 120000, 'thorough': 600000}, validate={'quick': 40, 'thorough': 80}, validate_doubles='int',
+      what='Polygons::_getHullIndices: the returned ring is closed, has 3..n distinct valid vertices, every input point lies on the same side of (or on) every ring edge '
+           '(exact cross products), the wrapping loop terminates and stays inside its index array',
+      out='point sets whose both coordinates are arbitrary (the products of two unknowns make the path feasibility undecidable for the solver in practice: exploration does not end); '
+          'collinear triples (the EPSILON6 test discarding the middle point), duplicates, more points than the bound; the dilation of db_selhull',
+      assumptions=['no three input points are collinear (stated as |cross product| >= 1, equivalent on the integer grid)',
+                   'real-arithmetic reading of the centroid (sum / n) used as first wrapping direction (exact for n = 4); all other products are exact on the grid'],
+      stubs=[])
